@@ -38,7 +38,7 @@ THEOREMS = [
     for n in (
         "table_rows_ok fixed_branch_width fixed_branch_width_rat fixed_branch_width_tables "
         "sscanf_parses_field sscanf_parses_recognised fixed_branch_accuracy fixed_precision_maximal "
-        "sci_consts_ok sci_width_accuracy sci_width "
+        "sci_consts_ok sci_width_accuracy sci_width small_branch_pos small_branch_neg_partial last_branches "
         "carry_guard_sound int_field_roundtrip blank_field_roundtrip line_roundtrip "
         "card_line_roundtrip_partial str_field_roundtrip card_fields_ok card_roundtrip_small card_roundtrip_large card_roundtrip_comma card_fixed_comma_agree"
     ).split()
